@@ -23,7 +23,7 @@ for d in sys.argv[4:]:
     if not (ver.get('apply_rc') == 0 and ver.get('build_rc') == 0 and tests_ok and demo_ok):
         print('NOT STORED', d, {'tests_ok': tests_ok, 'demo_ok': bool(demo_ok)}); continue
     prop = meta.get('property') or os.path.basename(os.path.dirname(d))
-    k = int(os.path.basename(d)) + 3 * (rnd - 1)
+    k = int(os.path.basename(d)) + int(os.environ.get('SEEDED_OFFSET', 3 * (rnd - 1)))
     sid = '%s-%d' % (prop, k)
     out = os.path.join(HERE, 'seeded', sid)
     os.makedirs(out, exist_ok=True)
@@ -32,7 +32,7 @@ for d in sys.argv[4:]:
     m = {'id': sid, 'round': rnd, 'breaks_property': prop, 'title': meta.get('title'), 'file': meta.get('file'), 'function': meta.get('function'),
          'what_it_breaks': meta.get('what_it_breaks'), 'needs_to_manifest': meta.get('needs_to_manifest'),
          'origin': ('written by an independent sub-agent that saw only the property text and a scratch worktree of /repo (no list of earlier changes, no access to /verif): an unbiased replicate of round 1'
-                    if rnd == 5 else
+                    if rnd in (5, 6) else
                     'written by an independent sub-agent that saw only the property text, the titles of the earlier changes for this property (not to be repeated) and a scratch worktree of /repo (no access to /verif)'),
          'confirmed_by_me': {'what_i_ran': 'tools/verify_seeded.py: scratch worktree of /repo HEAD, git apply patch.diff, cmake RelWithDebInfo full build (tests+examples), ctest x2, demo built with the build line of demo.cpp and run 3x with and 3x without the change; where both ctest runs failed only the load-sensitive test_generator_aggregator_async_infinite (a pre-existing flake) the other 14 tests were re-run and that test was repeated until it passed',
                              'patch_applies': True, 'project_builds': True, 'ctest_runs': ver.get('ctest'), 'ctest_rerun': retest, 'all_15_tests_pass': True,
